@@ -26,9 +26,8 @@
   re-written string array fits an int is a property of the input size, not of the reader.
   (7) `accepted_file_rewrite` removes that hypothesis too (Lemmas/PostSlice.lean: postconditions
   of sbdf_va_read / sbdf_cs_read / sbdf_ts_read on arbitrary input): for EVERY byte string the
-  readers accept to the end, assuming only that the byte-size headers to be written fit an int
-  and that no stored property count is negative, the in-memory form is stable under
-  serialisation.
+  readers accept to the end, assuming only that the byte-size headers to be written fit an int,
+  the in-memory form is stable under serialisation.
 -/
 import Sbdf.Props.C03
 import Sbdf.Props.C04
@@ -771,8 +770,10 @@ theorem post_readTM (c : Cfg) :
   refine Post.ite (fun _ => Post.fail) (fun hc0 => ?_)
   refine Post.bind (Post.readMany (post_readTableEntry c) count.toNat) (fun entries hent => ?_)
   refine Post.bind (Post.readInt32 c) (fun colCnt hcc => ?_)
+  refine Post.ite (fun _ => Post.fail) (fun _ => ?_)
   refine Post.bind (Post.alloc c _) (fun _ hca => ?_)
   refine Post.bind (Post.remapErr .oom (Post.readInt32 c)) (fun mdCnt hmc => ?_)
+  refine Post.ite (fun _ => Post.fail) (fun _ => ?_)
   refine Post.bind (Post.alloc c _) (fun _ hma => ?_)
   refine Post.bind (Post.readMany (post_readNameRow c) mdCnt.toNat) (fun rows hrows => ?_)
   refine Post.bind (Post.readMany (post_readColumn c rows (fun r hr => (hrows.2 r hr).2.1) Md.empty) colCnt.toNat)
@@ -878,14 +879,14 @@ theorem map_some_filterMap_id {α : Type} (l : List (Option α)) (h : ∀ o ∈ 
 /-- C08, foreign clause for whole files: for EVERY byte string that the readers accept to the end
     (header OK, table metadata OK, every `sbdf_ts_read` OK until end-of-table), provided only that
     the byte-size header of every string/binary array read fits an `int` (true of every input
-    below 400 MiB) and no stored property count is negative: writing the returned structures
+    below 400 MiB): writing the returned structures
     back either fails in `sbdf_tm_write`, or produces a file that reads back OK to the same
     table-level entries, the very same slices, end-of-table at its end, and per column the same
     value under every name.  Nothing else is assumed about the input. -/
 theorem accepted_file_rewrite (c : Cfg) (d : Array UInt8) (fuel : Nat) (v : Nat × Nat) (tm : TM)
     (tss : List TS) (e : Nat)
     (h : readFileF c none fuel d = ⟨.ok v, some (.ok tm), tss, some (.tableEnd e)⟩)
-    (hin : ∀ ts ∈ tss, ∀ x, some x ∈ ts.cols → x.BSOk ∧ 0 ≤ x.propCnt)
+    (hin : ∀ ts ∈ tss, ∀ x, some x ∈ ts.cols → x.BSOk)
     (fuel' : Nat) (hfuel : tss.length < fuel') :
     (writeTM c tm).st ≠ .ok ∨
     (∃ bytes cols', Emits (writeFile c ⟨tm, tss⟩) bytes ∧
@@ -943,8 +944,7 @@ theorem accepted_file_rewrite (c : Cfg) (d : Array UInt8) (fuel : Nat) (v : Nat 
         obtain ⟨x', hx', hfit⟩ := h4 (some x) ho
         simp only [Option.some.injEq] at hx'
         subst hx'
-        obtain ⟨hb, hnn⟩ := hin ts hmem x ho
-        exact CS.fits_of hfit hb hnn
+        exact CS.fits_of hfit (hin ts hmem x ho)
       have hfl : slices.length < fuel' := by simp only [slices, List.length_map]; exact hfuel
       rcases accepted_rewrite c d pos pos' tm0 hread slices hn hf fuel' hfl with hw | ⟨bytes, cols', h1, h2, h3⟩
       · exact .inl hw
@@ -960,13 +960,13 @@ example :
     let cs : CS := ⟨.rle 3 [1, 0] ⟨10, [[120], [121, 122]]⟩, 0, []⟩
     let d := (writeFile {} ⟨tm, [⟨[some cs]⟩]⟩).bytes.toArray
     readFileF {} none 5 d = ⟨.ok (1, 0), some (.ok tm), [⟨[some cs]⟩], some (.tableEnd d.size)⟩ ∧
-    (∀ ts ∈ [(⟨[some cs]⟩ : TS)], ∀ x, some x ∈ ts.cols → x.BSOk ∧ 0 ≤ x.propCnt) := by
+    (∀ ts ∈ [(⟨[some cs]⟩ : TS)], ∀ x, some x ∈ ts.cols → x.BSOk) := by
   refine ⟨rfl, ?_⟩
   intro ts hts x hx
   simp only [List.mem_singleton] at hts
   subst hts
   simp only [List.mem_singleton, Option.some.injEq] at hx
   subst hx
-  exact ⟨⟨fun _ => by decide, by simp⟩, by decide⟩
+  exact ⟨fun _ => by decide, by simp⟩
 
 end Sbdf.C08
